@@ -41,7 +41,7 @@ type runCtx struct {
 }
 
 func main() {
-	if len(os.Args) < 3 {
+	if len(os.Args) < 3 && !(len(os.Args) == 2 && os.Args[1] == "--build-all") {
 		fmt.Fprintln(os.Stderr, "usage: drive <Cnn> <quick|thorough> | drive <Cnn> --replay <file> | drive --build-all")
 		os.Exit(2)
 	}
@@ -237,7 +237,7 @@ func (rc *runCtx) runChild(ps partSpec, shard, shards, only int, tier string) *c
 	return co
 }
 
-var reFrame = regexp.MustCompile(`(?m)^\s*(github\.com/database64128/shadowsocks-go/[^\s(]+)`)
+var reFrame = regexp.MustCompile(`(?m)^\s*(github\.com/database64128/shadowsocks-go/\S+)\(`)
 var reAnyFrame = regexp.MustCompile(`(?m)^  ([A-Za-z0-9_./\-]+\.[^\s(]+)\(`)
 
 type sanReport struct {
